@@ -21,6 +21,7 @@ bodies of `mask_for_key`, `randomizer`, `datasets.chdir`, `plugins.plugin_path`,
 """
 import ast
 import os
+import re
 
 from tools.py2lean import PinError, REPO, find_class, find_func, group, lean_list, lean_str
 
@@ -287,6 +288,86 @@ def scan():
     }
 
 
+# ---------------------------------------------------------------------------------- process-wide settings of other modules
+
+SETTER_RE = re.compile(
+    r"^(set[a-z_A-Z]*|register[a-z_A-Z]*|unregister[a-z_A-Z]*|add_[a-z_]+|install[a-z_]*|seed|basicConfig|field_size_limit|"
+    r"simplefilter|filterwarnings|resetwarnings|tzset|chdir|fchdir|umask|putenv|unsetenv|freeze|disable|enable|"
+    r"excepthook|displayhook|dictConfig|fileConfig|captureWarnings|use|reload|import_module|__import__|"
+    r"patch|object|dict|getcontext|localcontext|setcontext|clear_cache|cache_clear|purge|mount|unmount)$")
+
+
+def _external_aliases(tree):
+    """names bound by `import X [as a]` / `from X import n [as a]` for modules outside the package"""
+    out = {}
+    for n in ast.walk(tree):
+        if isinstance(n, ast.Import):
+            for a in n.names:
+                if not a.name.startswith("snowfakery"):
+                    out[(a.asname or a.name).split(".")[0]] = a.name if a.asname else a.name.split(".")[0]
+        elif isinstance(n, ast.ImportFrom):
+            if n.level == 0 and n.module and not n.module.startswith("snowfakery"):
+                for a in n.names:
+                    out[a.asname or a.name] = n.module + "." + a.name
+    return out
+
+
+def _root_name(f):
+    while isinstance(f, (ast.Attribute, ast.Call, ast.Subscript)):
+        f = f.func if isinstance(f, ast.Call) else f.value
+    return f.id if isinstance(f, ast.Name) else None
+
+
+def process_setting_writes(trees):
+    """Calls (inside functions) into modules outside the package that can change state global to the Python process:
+    every call whose result is discarded (`csv.field_size_limit(n)`, `os.chdir(p)`, `warnings.warn(…)`), every call whose
+    name looks like a setter / registration wherever it stands, and every store through an external module object
+    (`os.environ[k] = v`, `decimal.getcontext().prec = n`).  (file, function, what)"""
+    out = []
+    for rel, t in trees.items():
+        ext = _external_aliases(t)
+        for q, fn in _functions(t.body, []):
+            local = set(_param_names(fn))
+            for m in _own_nodes(fn):
+                if isinstance(m, ast.Assign):
+                    for tg in m.targets:
+                        if isinstance(tg, ast.Name):
+                            local.add(tg.id)
+            for m in _own_nodes(fn):
+                if isinstance(m, ast.Expr) and isinstance(m.value, ast.Call):
+                    c = m.value
+                    r = _root_name(c.func)
+                    if r in ext and r not in local:
+                        out.append((rel, q, "call " + ast.unparse(c.func) + " [" + ext[r] + "] (result discarded)"))
+                elif isinstance(m, ast.Call):
+                    r = _root_name(m.func)
+                    last = m.func.attr if isinstance(m.func, ast.Attribute) else (m.func.id if isinstance(m.func, ast.Name) else "")
+                    if r in ext and r not in local and SETTER_RE.match(last or ""):
+                        out.append((rel, q, "call " + ast.unparse(m.func) + " [" + ext[r] + "]"))
+                tgts = []
+                if isinstance(m, ast.Assign):
+                    tgts = m.targets
+                elif isinstance(m, (ast.AugAssign, ast.AnnAssign)):
+                    tgts = [m.target]
+                elif isinstance(m, ast.Delete):
+                    tgts = m.targets
+                for tg in tgts:
+                    for el in (tg.elts if isinstance(tg, (ast.Tuple, ast.List)) else [tg]):
+                        if isinstance(el, (ast.Attribute, ast.Subscript)):
+                            r = _root_name(el)
+                            if r in ext and r not in local:
+                                out.append((rel, q, "store " + ast.unparse(el) + " [" + ext[r] + "]"))
+    # a discarded call is also caught by the setter pattern: keep one line per (file, function, callee)
+    seen, res = set(), []
+    for rel, q, what in sorted(set(out)):
+        key = (rel, q, what.split(" [")[0])
+        if key in seen:
+            continue
+        seen.add(key)
+        res.append((rel, q, what))
+    return res
+
+
 # ---------------------------------------------------------------------------------- caller-owned arguments
 
 ENTRY_POINTS = (("api.py", "generate_data"), ("data_generator.py", "generate"))
@@ -448,6 +529,9 @@ def _global_state(_tree):
     out += _triples("externalWrites", s["external"], "calls changing process-wide state outside the package: (file, function, call)") if s["external"] else \
         "def externalWrites : List (String × String × String) := []\n"
 
+    # ---- process-wide settings of other modules
+    out += _triples("processSettingWrites", process_setting_writes(trees),
+                    "in-function calls / stores that can change process-global state of modules outside the package: (file, function, what)")
     # ---- caller-owned arguments of the embedding entry points
     acells, awrites, aescapes = caller_arguments(trees)
     out += _triples("callerArgCells", acells, "where the objects passed by the caller of generate_data / generate reach: (file, function, parameter)")
